@@ -96,4 +96,11 @@ LawIdempotent(base, x) == ConflictKeys(base, <<x, x>>) = {} /\ ResultIs(Result(b
 \* the outcome does not depend on the order in which the branches are listed
 LawOrder(base, x, y) == /\ ConflictKeys(base, <<x, y>>) = ConflictKeys(base, <<y, x>>)
                         /\ Result(base, <<x, y>>) = Result(base, <<y, x>>)
+-----------------------------------------------------------------------------
+(* Tables WITHOUT a primary key: a row is its own key, so a version is a set of rows, every  *)
+(* change is a removal or an addition of a whole row, and nothing can conflict:            *)
+(* the merge is the base minus what some branch removed plus what some branch added.       *)
+KeylessResult(baseRows, branchRows) ==
+  (baseRows \ UNION {baseRows \ branchRows[i] : i \in 1..Len(branchRows)})
+    \cup UNION {branchRows[i] \ baseRows : i \in 1..Len(branchRows)}
 =============================================================================
